@@ -119,7 +119,7 @@ def check(ctx):
     he = hit_edges[0]
     me = [e for e in he.src.succ if e.label and e.label[0] == 'cond' and e is not he][0]
     facts = {f.text: f for f in he.facts()}
-    ctx.inst('R3', fcb, 'hit-requires-truthy-result', cvar in facts and facts[cvar].pol is True, 'a falsy cache result (None / unparsable / empty) must not be adopted')
+    ctx.inst('R3', fcb, 'hit-requires-truthy-result', (cvar in facts and facts[cvar].pol is True) or truthy_or_validated(gf, adopt[0], cvar, fcb.cls), 'a falsy cache result (None / unparsable / empty) must not be adopted')
     cached_table_adoption_rule(ctx, 'R3')
     from .c03 import fetcher_unsubscribe_rules
     fetcher_unsubscribe_rules(ctx, 'R2')      # what is stored under a checksum was downloaded in ONE session: a fetcher aborted by close / link loss does not go on in the next (shared with C03.R9)
@@ -398,6 +398,24 @@ def decoder_keys(dec):
     return keys, cond
 
 
+def truthy_or_validated(g, node, cvar, klass):
+    """the cached value is known to be truthy at ``node``: tested itself, or passed to a validator of the class whose first statement
+    turns a falsy argument away (`if not x: return False`)"""
+    keys = g.fact_keys_at(node)
+    if fact_key(cvar, True) in keys:
+        return True
+    for f in g.facts_at(node):
+        c = f.node
+        if f.pol and isinstance(c, ast.Call) and isinstance(c.func, ast.Attribute) and norm(c.func.value) == 'self' and klass is not None and klass.has(c.func.attr) and \
+                [norm(a) for a in c.args] == [cvar]:
+            vf = klass.method(c.func.attr)
+            body = [s_ for s_ in vf.node.body if not (isinstance(s_, ast.Expr) and isinstance(s_.value, ast.Constant))]
+            if body and isinstance(body[0], ast.If) and not body[0].orelse and norm(body[0].test) == 'not %s' % vf.params[1] and len(body[0].body) == 1 and \
+                    isinstance(body[0].body[0], ast.Return) and isinstance(body[0].body[0].value, ast.Constant) and body[0].body[0].value.value is False:
+                return True
+    return False
+
+
 def cached_table_adoption_rule(ctx, rule):
     """A cached table is adopted only when the cache gave a truthy result: None (miss), an unparsable file and an EMPTY table (which
     passes every per-element check vacuously) must lead to a download.  Shared with C02 (connected only when the tables are
@@ -408,7 +426,7 @@ def cached_table_adoption_rule(ctx, rule):
     adopt = [n for n in gf.nodes if n.kind == 'stmt' and isinstance(n.ast, ast.Assign) and norm(n.ast.targets[0]) == 'self.toc.toc']
     ctx.need(len(adopt) == 1, 'fetcher: adoption of the cached table not found')
     cvar = norm(adopt[0].ast.value)
-    ok = fact_key(cvar, True) in gf.fact_keys_at(adopt[0])
+    ok = truthy_or_validated(gf, adopt[0], cvar, fcb.cls)
     ctx.inst(rule, fcb, 'hit-requires-truthy-result', ok, 'a falsy cache result (None / unparsable / empty table) must not be adopted; guards %s' % sorted(gf.fact_keys_at(adopt[0])))
     # the completion callback reads the table (extended elements, the walk over all parameters): on a hit the cached table has to be
     # in place before the download is declared finished
